@@ -202,6 +202,10 @@ func registerIntrinsics(pkg string) {
 			return call(fr.i, fr, token.NoPos, a[0], nil)
 		})
 		reg("vSymbolic", func(fr *frame, a []value) value { return true })
+		reg("vMaxDraws", func(fr *frame, a []value) value {
+			fr.i.px.maxDraws = a[0].(int)
+			return nil
+		})
 		reg("vDrawCount", func(fr *frame, a []value) value {
 			n := 0
 			for _, d := range fr.i.px.drawLog {
